@@ -2,7 +2,7 @@
 from vlib.core import Case, hx
 
 ID = "C03"
-RULE = ("op hdk.derive <seed> <path>: seeds of length 0,1,16,32,64,65,128 and random; depths 1..10; indices from {0,1,2^31-1,random} x "
+RULE = ("op hdk.derive <seed> <path>: seeds of length 0,1,16,32,64,65,128 and random; depths 1..10 and long paths (up to 513 components, thorough 1000: around 32/64/128/256/512); indices from {0,1,2^31-1,random} x "
         "{hardened, normal}; mixed sequences; normal below hardened; BIP-32 test vectors 1 and 2; non-trivial = distinct (seed, path); "
         "judge = Spec.Bip32 (CKDpriv from the standard) with independent HMAC-SHA512 / secp256k1")
 EXHAUSTIVE_SWEEPS = {"quick": [], "thorough": []}
@@ -27,4 +27,14 @@ def gen(rng, tier):
             v = rng.choice([0, 1, 2 ** 31 - 1, rng.randrange(2 ** 31), rng.randrange(256), 2 ** 24, 255, 256, 65536])
             comps.append("%d%s" % (v, "'" if rng.random() < 0.5 else ""))
         cases.append(Case("hdk.derive %s %s" % (hx(s), hx("m/" + "/".join(comps))), tags=("random", "depth:%d" % depth)))
+    # long paths: BIP-32 puts no bound on the depth of a path handed to the derivation (the one-byte depth field belongs
+    # to the serialised extended key, which this tool does not produce); every component must still be applied
+    deep = [11, 16, 31, 32, 33, 63, 64, 65, 100, 127, 128, 129, 200, 254, 255, 256, 257, 258, 300, 511, 512, 513, 1000] if tier == "thorough" else \
+           [16, 32, 33, 64, 65, 127, 128, 129, 254, 255, 256, 257, 300, 513]
+    for depth in deep:
+        s = rb(32)
+        comps = ["%d%s" % (rng.choice([0, 1, 2 ** 31 - 1, rng.randrange(2 ** 31)]), "'" if rng.random() < 0.5 else "") for _ in range(depth)]
+        cases.append(Case("hdk.derive %s %s" % (hx(s), hx("m/" + "/".join(comps))), tags=("deep", "depth:%d" % depth)))
+        # the same path one component shorter and one longer must give different keys (no component is dropped)
+        cases.append(Case("hdk.derive %s %s" % (hx(s), hx("m/" + "/".join(comps[:-1]))), tags=("deep", "depth:%d" % (depth - 1))))
     return cases
